@@ -51,7 +51,7 @@ func (w *world) quiesce() {
 	n := -1
 	for i := 0; i < 200; i++ {
 		time.Sleep(5 * time.Millisecond)
-		if c := w.s.Bess.Count(); c == n {
+		if c := w.dpCount(); c == n {
 			return
 		} else {
 			n = c
@@ -148,6 +148,9 @@ func c05(c *ctx) {
 					if shape == 4 { // an accepted modification that removes a rule from the middle of the lists
 						w.mod(0, h.up, modReq{rp: []uint32{2}, rf: []uint32{2}, rq: []uint32{2}}, "remove-middle")
 					}
+					if r.Intn(3) == 0 && len(h.pdrs) > 1 { // a modification refused AFTER it removed rules that are not the last of their lists
+						w.mod(0, h.up, modReq{rp: []uint32{uint32(h.pdrs[0].ID)}, rf: []uint32{h.fars[0].ID}, rq: []uint32{999}}, "remove-then-refused")
+					}
 					if r.Intn(3) == 0 { // a modification rejected after its create/update step
 						w.mod(0, h.up, modReq{uf: []sysh.FarIE{h.fars[0]}, rp: []uint32{99}}, "rejected")
 					}
@@ -198,4 +201,72 @@ func c05(c *ctx) {
 		}
 	}
 	w.stats("cycle-end")
+	c05up4(c)
+}
+
+// c05up4: on the UP4 datapath a session also holds counter cells, meter cells, references on a tunnel peer and on
+// applications. Attach / idle / resume / detach cycles; whenever no session is live the plug-in must have everything back
+// and the switch hold nothing but the interfaces entries.
+func c05up4(c *ctx) {
+	r := c.rng
+	for rep := 0; rep < c.pick(2, 12); rep++ {
+		w, err := newWorld(c, sysh.Opts{P4: true, Pool: "10.60.0.0/16", P4DefaultTC: 3, ReadTimeout: 600})
+		if err != nil {
+			panic(err)
+		}
+		w.cfgLine()
+		if !w.start() {
+			w.close()
+			return
+		}
+		w.assoc(0)
+		for cyc := 0; cyc < c.pick(10, 60); cyc++ {
+			var mine []*hsess
+			for k := 0; k < 1+r.Intn(3); k++ {
+				pdrs, fars, qers := w.p4session()
+				for i := range pdrs { // precedence 65535 with a filter is refused by design: not part of these cycles
+					if pdrs[i].Prec == 65535 {
+						pdrs[i].Prec = 65534
+					}
+				}
+				w.nextCP++
+				if h, _ := w.est(0, w.nodes[0], w.nextCP, pdrs, fars, qers, "c05-up4"); h != nil {
+					mine = append(mine, h)
+				}
+			}
+			for _, h := range mine {
+				// idle (buffering, forwarding parameters kept, as SD-Core's SMF does on AN release) and sometimes active again
+				for i, f := range h.fars {
+					if f.ID == 2 && f.Fwd != nil && f.Fwd.Ohc != nil && r.Intn(2) == 0 {
+						g := f
+						g.Act = 0x0C
+						if w.mod(0, h.up, modReq{uf: []sysh.FarIE{g}}, "c05-idle").Cause == 1 {
+							h.fars[i] = g
+							if r.Intn(2) == 0 {
+								g.Act = 2
+								if w.mod(0, h.up, modReq{uf: []sysh.FarIE{g}}, "c05-resume").Cause == 1 {
+									h.fars[i] = g
+								}
+							}
+						}
+					}
+				}
+			}
+			switch cyc % 3 {
+			case 0, 1:
+				for _, h := range mine {
+					if cyc%3 == 0 {
+						w.del(0, h.up, "c05-up4")
+					} else {
+						w.endBy(0, "report65", h)
+					}
+					h.dead = true
+				}
+			default:
+				w.release(0)
+				w.assoc(0)
+			}
+		}
+		w.close()
+	}
 }
